@@ -73,7 +73,7 @@ def check_level_shape():
 def handle_shape():
     """handle: modname = last dotted component; unknown module -> return;
     levelname = LEVEL_NAMES.get(record.levelno) or record.levelname.lower()   (repaired by 22ea150: no KeyError);
-    for conn, lev in items(): if record.levelno >= lev: send_log(conn, modname, levelname, msg)"""
+    for conn, lev in <see handle_iterates_snapshot>: if record.levelno >= lev: send_log(conn, modname, levelname, msg)"""
     f = find_func(_rlh(), 'handle')
     body = _stmts(f)
     if len(body) != 4:
@@ -88,13 +88,25 @@ def handle_shape():
     ok = ok and _norm(body[2]) == 'levelname=LEVEL_NAMES.get(record.levelno)orrecord.levelname.lower()'
     loop = body[3]
     ok = ok and isinstance(loop, ast.For) and _norm(loop.target) in ('(conn,lev)', 'conn,lev') \
-        and _norm(loop.iter) == 'subscriptions.items()' and len(loop.body) == 1 and not loop.orelse
+        and len(loop.body) == 1 and not loop.orelse          # what the loop runs over: fact handle_iterates_snapshot
     if not ok:
         return 'bool', 'false'
     cond = loop.body[0]
     ok = isinstance(cond, ast.If) and not cond.orelse and len(cond.body) == 1 \
         and _norm(cond.body[0]).startswith('self.send_log(conn,modname,levelname,')
     return 'bool', cbool(ok)
+
+
+def handle_iterates_snapshot():
+    """the delivery loop of handle runs over `list(subscriptions.items())`, a snapshot taken in one step, not over the live
+    dict other threads are writing (repaired by 641822e); `subscriptions` is the dict looked up in the try statement before
+    and is not used otherwise"""
+    f = find_func(_rlh(), 'handle')
+    loops = walk_type(f, ast.For)
+    if len(loops) != 1:
+        raise Shape('handle: expected exactly one for loop')
+    uses = [n for n in ast.walk(f) if isinstance(n, ast.Name) and n.id == 'subscriptions']
+    return 'bool', cbool(_norm(loops[0].iter) == 'list(subscriptions.items())' and len(uses) == 2)
 
 
 def handle_compares_ge():
@@ -278,7 +290,7 @@ def rollover_removes_old_earlier():
     return 'bool', cbool(ok)
 
 
-FACTS = [OFF, COMLOG, log_levels_table_shape, check_level_shape, handle_shape, handle_compares_ge,
+FACTS = [OFF, COMLOG, log_levels_table_shape, check_level_shape, handle_shape, handle_iterates_snapshot, handle_compares_ge,
          set_conn_level_shape, module_sets_own_name, set_all_iterates_all_modules, handle_logging_shape,
          reset_sets_all_off, remove_calls_reset, ident_calls_reset, send_log_msg_shape,
          handle_request_holds_lock, close_path_takes_no_lock, subscriptions_touched_in_three_places,
